@@ -33,7 +33,7 @@ ASSUMPTIONS = ['datasets with >=2 spikes/templates/channels/samples (squeeze deg
 
 @st.composite
 def _case(draw):
-    spec = draw(D.dataset_spec(nan=True, probe_labels=True, raw_parent=True))
+    spec = draw(D.dataset_spec(nan=True, probe_labels=True, raw_parent=True, symlinks=True))
     reads = [[draw(st.integers(0, spec['n_raw'] - 1)), draw(st.integers(1, 12))] for _ in range(3)]
     return {'spec': spec, 'nonmono': draw(st.integers(0, 4)) == 0, 'reads': reads,
             'decoy': draw(st.booleans()), 'dirname': draw(st.sampled_from(DIRNAMES)),
